@@ -396,10 +396,10 @@ pub fn run(args: &Args) -> i32 {
     if let Some(p) = &args.replay { return replay(args, p, rep); }
     let budget = Budget::for_tier(args.tier, 150.0, 1500.0);
     let jobs = args.jobs.max(1);
-    let n_small = args.by_tier(2400u64, 30_000);
-    let n_medium = args.by_tier(400u64, 6_000);
-    let n_seq = args.by_tier(600u64, 8_000);
-    let n_pairs = args.by_tier(800_000u64, 6_000_000);
+    let n_small = args.by_tier(2400u64, 90_000);
+    let n_medium = args.by_tier(400u64, 18_000);
+    let n_seq = args.by_tier(600u64, 24_000);
+    let n_pairs = args.by_tier(800_000u64, 18_000_000);
     let b = budget.slice(0.3);
     run_shards(&mut rep, jobs, jobs, |shard, rep| {
         let mut case = shard as u64;
